@@ -8,6 +8,7 @@ generated document by the correspondence run (it is a contract of schemars'
 generator, see notes/C06.md), not proved.
 -/
 import DropshotProofs.C02
+import DropshotProofs.Lemmas.RouterOrder
 
 namespace Dropshot.C06
 open Dropshot
@@ -45,8 +46,7 @@ theorem doc_exact (es : List (Endpoint V)) (t : Node V)
 
 /-- **C06, order independence (as a set of operations).**  Two accepted
 registration orders of the same endpoints document the same operations at
-every version.  (That the *sequence* — hence the bytes — is also the same is
-checked on every run across permuted registration orders.) -/
+every version (see `doc_list_order_independent` for the sequence). -/
 theorem doc_order_independent (es es' : List (Endpoint V)) (t t' : Node V)
     (hperm : ∀ x, x ∈ es ↔ x ∈ es') (hr : ∀ e ∈ es, Range.WF e.versions)
     (h : insertAll Node.empty es = .ok t) (h' : insertAll Node.empty es' = .ok t') (v : V)
@@ -55,6 +55,41 @@ theorem doc_order_independent (es es' : List (Endpoint V)) (t t' : Node V)
   constructor <;> rintro ⟨e, he, rest⟩
   · exact ⟨e, (hperm e).1 he, rest⟩
   · exact ⟨e, (hperm e).2 he, rest⟩
+
+/-- **C06, order independence of the operation *sequence*.**  Two accepted
+registration orders of the same endpoints produce, at every version, the same
+list of operations in the same order (so the document's path and operation
+order does not depend on registration order). -/
+theorem doc_list_order_independent (es es' : List (Endpoint V)) (t t' : Node V)
+    (hperm : ∀ x, x ∈ es ↔ x ∈ es') (hr : ∀ e ∈ es, Range.WF e.versions)
+    (h : insertAll Node.empty es = .ok t) (h' : insertAll Node.empty es' = .ok t') (v : V) :
+    docOps t v = docOps t' v := by
+  obtain ⟨w, a⟩ := C01.accepted_wf es t hr h
+  obtain ⟨w', a'⟩ := C01.accepted_wf es' t' (fun e he => hr e ((hperm e).2 he)) h'
+  have key : ((Node.all t []).filter fun p => p.2.versions.matches (some v)) =
+      ((Node.all t' []).filter fun p => p.2.versions.matches (some v)) := by
+    refine eq_of_sorted_same_members keyLt keyLt_irrefl keyLt_asymm _ _
+      (filtered_sorted t w v) (filtered_sorted t' w' v) (fun x => ?_)
+    simp only [List.mem_filter]
+    have hmem : x ∈ Node.all t [] ↔ x ∈ Node.all t' [] := by
+      obtain ⟨addr, e⟩ := x
+      constructor
+      · intro hx
+        have hadr := w.addr _ hx
+        simp only at hadr; subst hadr
+        have he : e ∈ t'.abs := (a' e).2 ((hperm e).1 ((a e).1 ((C01.mem_abs_iff t e).2 ⟨_, hx⟩)))
+        obtain ⟨addr', hx'⟩ := (C01.mem_abs_iff t' e).1 he
+        have := w'.addr _ hx'
+        simp only at this; subst this; exact hx'
+      · intro hx
+        have hadr := w'.addr _ hx
+        simp only at hadr; subst hadr
+        have he : e ∈ t.abs := (a e).2 ((hperm e).2 ((a' e).1 ((C01.mem_abs_iff t' e).2 ⟨_, hx⟩)))
+        obtain ⟨addr', hx'⟩ := (C01.mem_abs_iff t e).1 he
+        have := w.addr _ hx'
+        simp only at this; subst this; exact hx'
+    rw [hmem]
+  simp only [docOps, Node.iter, key]
 
 /-- **C06, unpublished endpoints are omitted.** -/
 theorem unpublished_omitted (t : Node V) (v : V) (x : String × String × Endpoint V)
